@@ -1,5 +1,7 @@
 import Glom.Lemmas.C20
 import Glom.Lemmas.C20Arg
+import Glom.Lemmas.C20Err
+import Glom.Lemmas.C20Trace
 import Glom.Model.C20Env
 /-
   C20 — Concurrent and re-entrant glom calls behave exactly as when run alone.
@@ -153,6 +155,48 @@ theorem c20_reentry_frames_extracted (st : BSt) (a : Nat) (inner : RSpec) (hin :
     rcases hhow with h | h <;> subst h <;> decide
   exact ⟨(c20_reentry_frames st a how inner hc hin).1, (c20_reentry_frames st a how inner hc hin).2.1⟩
 
+open Glom.C20.Re in
+/-- **Any nesting depth (`c20_reentry_depth`).**  `n` re-entrant calls inside one another (each handed
+    the scope of the running call in a covering way, or none), the innermost evaluating any covered
+    spec: every scope map and failed-branch list that existed before the outermost of them is what
+    it was, for every `n` (`c20_reentry_frames`, whose induction over the inner spec passes through
+    every level of the nesting). -/
+theorem c20_reentry_depth (st : BSt) (a : Nat) (how : How) (body : RSpec) (n : Nat)
+    (hhow : how.covers = true) (hbody : body.covered = true) :
+    (∀ i, i < st.frames.length →
+        (eval (nestRe how body n) (start st a how).1 (start st a how).2).1.frames[i]? = st.frames[i]?) ∧
+    (∀ l, l < st.lists.length →
+        (eval (nestRe how body n) (start st a how).1 (start st a how).2).1.lists[l]? = st.lists[l]?) ∧
+    (eval (nestRe how body n) (start st a how).1 (start st a how).2).2 = denote (nestRe how body n) :=
+  c20_reentry_frames st a how (nestRe how body n) hhow (nestRe_covered how body hhow hbody n)
+
+open Glom.C20.Re in
+/-- **The outcome and the error trace of a call do not see the re-entrant calls made inside it
+    (`c20_reentry_trace_alone`).**  Any call whose custom specs make re-entrant calls — with no scope,
+    or handed the scope of the running call in a covering way; inner specs with Coalesces, chains,
+    failures that are caught, further re-entries to any depth; anywhere in the outer spec: under dict
+    values, Coalesce alternatives, after earlier links of a tuple chain: the whole call — its value,
+    or its error AND the trace rendered from the error bookkeeping (`_unpack_stack`,
+    `format_target_spec_trace`: every line, branch and depth) — is exactly that of the same call in
+    which no inner call is made at all (`erase`: the re-entering spec just evaluates what it
+    evaluates afterwards).  Proof: the heap of the run without inner calls embeds into the heap of
+    the real run by an injection of addresses that every step of `_glom` (new_child, the exception
+    handler with its NO_PYFRAME walk, chain_child) preserves and that an inner call leaves untouched
+    (`c20_reentry_frames`); rendering from related roots yields the same lines; the loops of the
+    handler and of `_unpack_stack` terminate within the fuel the model gives them because parents are
+    older and children / failed branches younger than a scope (`WFB`). -/
+theorem c20_reentry_trace_alone (spec : RSpec) (hc : spec.covered = true) :
+    runCall spec = runCall (erase spec) :=
+  runCall_erase spec hc
+
+open Glom.C20.Re in
+/-- … so two calls that differ only in their inner calls — which calls are made, how the scope is
+    handed over, what they evaluate, whether they fail — have the same outcome and trace: the inner
+    call may be replaced by the constant it evaluates to in isolation. -/
+theorem c20_reentry_inner_irrelevant (s1 s2 : RSpec) (h1 : s1.covered = true) (h2 : s2.covered = true)
+    (h : erase s1 = erase s2) : runCall s1 = runCall s2 := by
+  rw [runCall_erase s1 h1, runCall_erase s2 h2, h]
+
 section reentryExamples
 open Glom.C20.Re
 
@@ -203,6 +247,17 @@ theorem c20_reentry_marker_counterexample :
     (let s0 := start s4.1 s4.2 (.handed ⟨true, true⟩)
      errOf (eval (.leaf 4 (.error (.raised 1))) s0.1 s0.2).2 = some (.raised 1)) := by
   decide +kernel
+
+-- `c20_reentry_trace_alone` says something: a call with a branching trace two levels deep, a
+-- re-entry under a Coalesce alternative behind a chain link; without `covered` it fails
+-- (`c20_reentry_shared_list_counterexample`: `demo1 (.handed ⟨false, true⟩)` is not covered)
+example : (demo2 (.handed ⟨true, true⟩)).covered = true := by decide
+example : runCall (demo2 (.handed ⟨true, true⟩)) = runCall (erase (demo2 .isolated)) ∧
+    runCall (erase (demo2 .isolated)) = .err (.coalesce 1)
+      [(0, .branching 1), (1, .spec 2), (1, .spec 4), (1, .spec 6), (1, .error (.raised 3)), (1, .spec 7),
+       (1, .error (.raised 4))] := by decide +kernel
+example : (demo1 (.handed ⟨false, true⟩)).covered = false ∧
+    runCall (demo1 (.handed ⟨false, true⟩)) ≠ runCall (erase (demo1 (.handed ⟨false, true⟩))) := by decide +kernel
 
 -- the hypotheses of `c20_reentry_frames` are satisfiable by a non-trivial input: a covering
 -- re-entry whose inner spec has a Coalesce, a chain and a further re-entry
@@ -482,6 +537,209 @@ example : argVal (fun s => s) 8 [⟨.list, []⟩, ⟨.list, [.ref 0, .ref 0, .re
   decide +kernel
 
 end argShared
+
+/-! ### the error object: rendering is idempotent and history-independent
+
+A failing glom() call made from a callable hands its error to the enclosing call; user code in
+between — the `except` handler of the callable, a custom spec, a logger, a later callable that kept the
+error — may render it (`str`, `'%s' %`, `traceback.format_exception`, logging), copy it, render it
+again.  `Glom/Model/C20Err.lean` is the `__dict__` of the error with its two caches
+(`_finalized_str`, `_target_spec_trace`) as a state machine over {render, copy, exit of a glom()
+call: copy | same object | wrap, `_set_wrapped`, `_finalize` (which renders the exception being
+handled into `_tb_lines`)}; `Glom/Spec/C20Err.lean` is the cache-free reference: the message is a
+function of what the last finalization put on the object. -/
+
+section errObject
+open Glom.C20.ErrM
+
+/-- **Facts obligation for the error object**: the mutable attributes of a GlomError are the five the
+    model has; `__str__` depends (reads on some path before it has written) only on `_scope`,
+    `_tb_lines`, `__wrapped` and caches; `_finalize` sets `_scope` to the scope it is handed and
+    `_tb_lines`, unconditionally, and RESETS (`= None`, unconditionally) every cache `__str__` reads
+    (`Cfg.WF`); no subclass has a `__str__` of its own; the only copy-protocol override builds a
+    fresh instance (`TypeMatchError.__copy__`); the handler of `glom()` is `copy.copy(e)` | `err = e`
+    | `GlomError.wrap(e)`, `_set_wrapped(e)`, `_finalize(scope[LAST_CHILD_SCOPE])`. -/
+theorem c20_err_facts_wf : genErrFacts.WF = true := by decide
+
+/-- **Every render returns the reference message (`c20_err_render_reference`).**  Any source whose
+    `_finalize` resets the caches its `__str__` reads (`cfg.WF`; in particular the current source,
+    `c20_err_facts_wf`), any history of renders, copies (dict-carrying or fresh) and exits of glom()
+    calls (to any nesting depth; copy, same object, wrap): every render the user makes returns
+    exactly what the cache-free reference returns — the message computed from the last
+    finalization of that object alone. -/
+theorem c20_err_render_reference (cfg : Cfg) (hwf : cfg.WF = true) (ops : List Op)
+    (hok : opsOK ops ⟨RHeap.init, [], []⟩ [] = true) :
+    (run cfg ops ⟨Heap.init, []⟩).texts = (refRun ops ⟨RHeap.init, [], []⟩).texts :=
+  (run_sim cfg hwf ops ⟨Heap.init, []⟩ ⟨RHeap.init, [], []⟩ [] (sim_init cfg) rfl hok).2
+
+/-- **History independence (`c20_err_history_independent`).**  The message of an error after any
+    interleaving of renders (of this and of other errors), copies and enclosing calls equals the
+    message computed by a single render at the end, in the history from which every earlier render
+    is erased. -/
+theorem c20_err_history_independent (cfg : Cfg) (hwf : cfg.WF = true) (ops : List Op) (e : Nat)
+    (hok : opsOK ops ⟨RHeap.init, [], []⟩ [] = true) :
+    (run cfg (ops ++ [.render e]) ⟨Heap.init, []⟩).texts.getLast? =
+    (run cfg (ops.filter (fun op => !isRender op) ++ [.render e]) ⟨Heap.init, []⟩).texts.getLast? := by
+  have hr : ∀ op ∈ [Op.render e], isRender op = true := by
+    intro op hop; simp only [List.mem_singleton] at hop; subst hop; rfl
+  have hok' := opsOK_erase ops ⟨RHeap.init, [], []⟩ ⟨RHeap.init, [], []⟩ [] rfl hok
+  rw [c20_err_render_reference cfg hwf _ (opsOK_append _ _ _ _ hok hr),
+    c20_err_render_reference cfg hwf _ (opsOK_append _ _ _ _ hok' hr),
+    refRun_append, refRun_append]
+  have := refRun_erase ops ⟨RHeap.init, [], []⟩ ⟨RHeap.init, [], []⟩ rfl rfl
+  simp only [refRun, refStep, List.getLast?_append, List.getLast?_singleton, Option.some_or]
+  rw [this.1]
+
+/-- **Rendering is idempotent (`c20_err_render_idempotent`).**  After any history, rendering an error
+    twice returns the same message twice: the reference message. -/
+theorem c20_err_render_idempotent (cfg : Cfg) (hwf : cfg.WF = true) (ops : List Op) (e : Nat)
+    (hok : opsOK ops ⟨RHeap.init, [], []⟩ [] = true) :
+    (run cfg (ops ++ [.render e, .render e]) ⟨Heap.init, []⟩).texts =
+      (run cfg ops ⟨Heap.init, []⟩).texts ++
+        [refRender (refRun ops ⟨RHeap.init, [], []⟩).heap e, refRender (refRun ops ⟨RHeap.init, [], []⟩).heap e] := by
+  have hr : ∀ op ∈ [Op.render e, Op.render e], isRender op = true := by
+    intro op hop; simp only [List.mem_cons, List.not_mem_nil, or_false, or_self] at hop; subst hop; rfl
+  rw [c20_err_render_reference cfg hwf _ (opsOK_append _ _ _ _ hok hr), c20_err_render_reference cfg hwf _ hok,
+    refRun_append]
+  simp [refRun, refStep]
+
+/-- **The enclosing call's error shows the enclosing call's trace (`c20_err_shows_enclosing_call`).**
+    When the glom() call `lvl` ends with an error — whatever was done to the exception it handled
+    (`e`: finalized by inner calls to any depth, rendered, copied) and whichever way the handler goes
+    (copy, same object, wrap) — and the user then renders anything any number of times, the message
+    of the error that came out shows the trace of the scope of `lvl`, the root error `e` and the
+    traceback lines captured by `lvl`: never those of an inner call. -/
+theorem c20_err_shows_enclosing_call (cfg : Cfg) (hwf : cfg.WF = true) (ops rs : List Op) (lvl e out : Nat) (k : ExitKind)
+    (hrs : ∀ op ∈ rs, isRender op = true)
+    (hok : opsOK (ops ++ [.exit lvl e out k]) ⟨RHeap.init, [], []⟩ [] = true) :
+    ∃ t, (run cfg (ops ++ [.exit lvl e out k] ++ rs ++ [.render (exitTarget e out k)]) ⟨Heap.init, []⟩).texts.getLast?
+      = some (.full lvl (some e) lvl t) := by
+  have hr : ∀ op ∈ rs ++ [Op.render (exitTarget e out k)], isRender op = true := by
+    intro op hop
+    rcases List.mem_append.mp hop with h | h
+    · exact hrs op h
+    · simp only [List.mem_singleton] at h; subst h; rfl
+  rw [List.append_assoc (ops ++ [Op.exit lvl e out k])]
+  rw [c20_err_render_reference cfg hwf _ (opsOK_append _ _ _ _ hok hr)]
+  rw [← List.append_assoc, refRun_append _ [Op.render _], refRun_append (ops ++ [Op.exit lvl e out k]) rs]
+  -- renders do not change the heap of the reference
+  have hheap : ∀ (rs : List Op) (s : RSt), (∀ op ∈ rs, isRender op = true) → (refRun rs s).heap = s.heap := by
+    intro rs
+    induction rs with
+    | nil => intro s _; rfl
+    | cons op r ih =>
+      intro s h
+      have := h op (List.mem_cons_self ..)
+      cases op with
+      | render x => exact ih _ (fun o ho => h o (List.mem_cons_of_mem _ ho))
+      | ucopy _ _ _ => simp [isRender] at this
+      | exit _ _ _ _ => simp [isRender] at this
+  simp only [refRun, refStep, List.getLast?_append, List.getLast?_singleton, Option.some_or]
+  rw [hheap rs _ hrs, refRun_append]
+  simp only [refRun, refStep]
+  generalize (refRun ops ⟨RHeap.init, [], []⟩).heap = h
+  cases k with
+  | same =>
+    exact ⟨refRender (h.set e { h e with wrapped := some e }) e, by simp [refRender, refText, refExit, exitTarget]⟩
+  | copy ck =>
+    exact ⟨refRender ((refCopy h e out ck).set out { refCopy h e out ck out with wrapped := some e }) e,
+      by simp [refRender, refText, refExit, exitTarget]⟩
+
+/-- **Any nesting depth (`c20_err_nested_depth`).**  `n + 1` glom() calls inside one another, each made
+    from a callable whose handler renders the error of the call it made `k` times before letting it
+    go on (`chain`): the outermost call's error shows the trace of the outermost call. -/
+theorem c20_err_nested_depth (cfg : Cfg) (hwf : cfg.WF = true) (k n : Nat) :
+    ∃ t, (run cfg (chain k (n + 1) ++ [.render (n + 1)]) ⟨Heap.init, []⟩).texts.getLast?
+      = some (.full (n + 1) (some n) (n + 1) t) := by
+  have := c20_err_shows_enclosing_call cfg hwf (chain k n) (List.replicate k (.render (n + 1))) (n + 1) n (n + 1) (.copy .carry)
+    (by intro op hop; rw [List.eq_of_mem_replicate hop]; rfl) (opsOK_chain_exit k n)
+  simpa [chain, exitTarget, List.append_assoc] using this
+
+/-- **Checker theorem for error histories** — the form in which the property is evaluated on the
+    implementation: whatever strings the message terms stand for (`I`), the renders of the model
+    pass `checkErrHist` against the table "call ↦ the message of the error it ended with" of the
+    reference: every render of the error of a call, wherever and whenever it is made, reads the
+    message that call's error shows. -/
+theorem c20_err_model_checks {τ : Type} [BEq τ] [ReflBEq τ] (I : Text → τ) (cfg : Cfg) (hwf : cfg.WF = true) (ops : List Op)
+    (hok : opsOK ops ⟨RHeap.init, [], []⟩ [] = true) :
+    checkErrHist ops ((run cfg ops ⟨Heap.init, []⟩).texts.map fun t => some (I t))
+      (fun l => (lookupLvl l (refRun ops ⟨RHeap.init, [], []⟩).table).map I) = true := by
+  rw [c20_err_render_reference cfg hwf ops hok]
+  obtain ⟨new, h1, h2, h3⟩ := refRun_levels ops ⟨RHeap.init, [], []⟩ [] tinv_init hok
+  simp only [List.nil_append] at h1
+  rw [h1]
+  simp only [checkErrHist, Bool.and_eq_true, beq_iff_eq, List.length_map, List.all_eq_true]
+  refine ⟨h2.symm, ?_⟩
+  intro p hp
+  rw [List.zip_map_right] at hp
+  obtain ⟨q, hq, rfl⟩ := List.mem_map.mp hp
+  simp only [Prod.map_fst, Prod.map_snd, id_eq]
+  cases hl : q.1 with
+  | none => rfl
+  | some l =>
+    simp only
+    rw [h3 q hq l hl]
+    simp
+
+/-- the current source: memo returned and stored, trace always recomputed, memo reset -/
+private def cfgNow : Cfg := ⟨true, true, false, true, false⟩
+/-- the seeded change C20-s8: only `_target_spec_trace` is cached, computed only when absent, never reset -/
+private def cfgS8 : Cfg := ⟨false, false, true, false, false⟩
+/-- glom before the reset was added to `_finalize`: the rendered message is kept for good -/
+private def cfgNoReset : Cfg := ⟨true, true, false, false, false⟩
+
+example : genErrFacts.cfg = cfgNow ∧ cfgNow.WF = true ∧ cfgS8.WF = false ∧ cfgNoReset.WF = false := by decide
+
+/-- an inner call fails (error 10, copy 11), the callable renders 11 and lets it propagate, the
+    enclosing call fails with it (copy 12) and its error is rendered -/
+private def histRendered : List Op :=
+  [.exit 1 10 11 (.copy .carry), .render 11, .exit 2 11 12 (.copy .carry), .render 12]
+private def histPlain : List Op :=
+  [.exit 1 10 11 (.copy .carry), .exit 2 11 12 (.copy .carry), .render 12]
+
+/-- **Counter-example: a cache `__str__` reads and `_finalize` does not reset (the seeded change
+    C20-s8; glom before the reset).**  The hypothesis `cfg.WF` is forced: with the trace cached and
+    not reset, the enclosing call's error shows the INNER call's trace (scope 1, root 10) once the
+    callable has rendered the inner error, and the outer trace when it has not; an error finalized
+    in place twice shows the inner trace even when nobody rendered it (`_finalize` itself renders
+    the exception being handled); with the message cached and not reset the enclosing call's error
+    IS the inner message.  With the current source all of them show scope 2. -/
+theorem c20_err_stale_cache_counterexample :
+    (run cfgS8 histRendered ⟨Heap.init, []⟩).texts.getLast? = some (.full 1 (some 10) 2 (.full 1 (some 10) 1 (.plain 10))) ∧
+    (run cfgS8 histPlain ⟨Heap.init, []⟩).texts.getLast? = some (.full 2 (some 11) 2 (.full 1 (some 10) 1 (.plain 10))) ∧
+    (run cfgS8 [.exit 1 10 0 .same, .exit 2 10 0 .same, .render 10] ⟨Heap.init, []⟩).texts.getLast?
+      = some (.full 1 (some 10) 2 (.full 1 (some 10) 1 (.plain 10))) ∧
+    (run cfgNoReset histRendered ⟨Heap.init, []⟩).texts.getLast? = some (.full 1 (some 10) 1 (.plain 10)) ∧
+    (run cfgNow histRendered ⟨Heap.init, []⟩).texts.getLast? = (run cfgNow histPlain ⟨Heap.init, []⟩).texts.getLast? ∧
+    (run cfgNow histRendered ⟨Heap.init, []⟩).texts.getLast? = some (.full 2 (some 11) 2 (.full 1 (some 10) 1 (.plain 10))) ∧
+    (run cfgNow [.exit 1 10 0 .same, .exit 2 10 0 .same, .render 10] ⟨Heap.init, []⟩).texts.getLast?
+      = some (.full 2 (some 10) 2 (.full 1 (some 10) 1 (.plain 10))) := by
+  decide
+
+/-- **Counter-example: the hypothesis on errors finalized in place is forced.**  An error that was
+    finalized as a COPY (it wraps 10) and is then finalized in place by an enclosing call (user code
+    raised a copy whose class cannot be re-created) wraps itself from then on: the message rendered
+    into `_tb_lines` by that finalization names root 10 when the user had rendered the error before
+    (the cached message), root 11 when not — with the current source.  `opsOK` excludes the history. -/
+theorem c20_err_in_place_counterexample :
+    (run cfgNow [.exit 1 10 11 (.copy .carry), .render 11, .exit 2 11 0 .same, .render 11] ⟨Heap.init, []⟩).texts.getLast? ≠
+    (run cfgNow [.exit 1 10 11 (.copy .carry), .exit 2 11 0 .same, .render 11] ⟨Heap.init, []⟩).texts.getLast? ∧
+    opsOK [.exit 1 10 11 (.copy .carry), .exit 2 11 0 .same, .render 11] ⟨RHeap.init, [], []⟩ [] = false := by
+  decide
+
+-- the hypotheses are satisfiable by a non-trivial history: three nested calls; the innermost error
+-- (a TypeMatchError: fresh copies) rendered by the callable, copied by user code, the copy raised
+-- on; the middle call's error kept and rendered late; an error of a class that cannot be re-created
+-- finalized in place twice
+example : opsOK [.exit 1 10 11 (.copy .fresh), .render 11, .render 11, .ucopy 11 13 .carry, .exit 2 13 14 (.copy .carry),
+    .render 14, .exit 3 14 15 (.copy .carry), .render 11, .render 14, .render 15,
+    .exit 4 20 0 .same, .render 20, .exit 5 20 0 .same, .render 20] ⟨RHeap.init, [], []⟩ [] = true := by decide
+-- `checkErrHist` rejects an observation in which the enclosing call's error reads the inner message
+example : checkErrHist histRendered [some "inner", some "inner"] (fun l => if l = 1 then some "inner" else some "outer") = false ∧
+    checkErrHist histRendered [some "inner", some "outer"] (fun l => if l = 1 then some "inner" else some "outer") = true := by
+  decide
+
+end errObject
 
 /-! ### non-vacuity -/
 
